@@ -87,15 +87,9 @@ pub fn thread_tag() -> i64 {
 
 // ---- re-exports of per-component hooks (each defined next to the code it exposes) ----
 pub use crate::util::rust_util::rev_group::verif_groups;
-// C25 (family "header"): side-metadata sanity predicate and spec-set check.
-pub use crate::util::metadata::side_metadata::verif_sanity_hooks;
-// C36 (family "policy"): the large-object treadmill (all operations are pub; hooks verif_sets / verif_enumerate).
-pub use crate::util::treadmill::TreadMill;
-// C37 (family "policy"): Compressor forwarding metadata on a harness-mapped region.
-pub use crate::policy::compressor::forwarding::verif_hooks as compressor_hooks;
-pub use crate::policy::compressor::forwarding::ForwardingMetadata;
-// C38 (family "policy"): stand-alone MemBalancerTrigger / FixedHeapSizeTrigger drivers.
-pub use crate::util::heap::gc_trigger::verif_hooks as gc_trigger_hooks;
+// C29 / C30 (family "layout"): private Map32 (+ per-space CommonPageResource) and ChunkStateMmapper instances.
+pub use crate::util::heap::layout::verif_map32;
+pub use crate::util::heap::layout::verif_mmapper;
 // C33 / C35 / C32 (family "arith"): alignment arithmetic, mark-sweep size classes, descriptors.
 pub use crate::policy::marksweepspace::native_ms::mi_bin;
 pub use crate::policy::marksweepspace::native_ms::verif_block_free_list;
@@ -107,3 +101,12 @@ pub use crate::util::alloc::allocator::{
     get_maximum_aligned_size_inner,
 };
 pub use crate::util::heap::space_descriptor::SpaceDescriptor;
+// C25 (family "header"): side-metadata sanity predicate and spec-set check.
+pub use crate::util::metadata::side_metadata::verif_sanity_hooks;
+// C36 (family "policy"): the large-object treadmill (all operations are pub; hooks verif_sets / verif_enumerate).
+pub use crate::util::treadmill::TreadMill;
+// C37 (family "policy"): Compressor forwarding metadata on a harness-mapped region.
+pub use crate::policy::compressor::forwarding::verif_hooks as compressor_hooks;
+pub use crate::policy::compressor::forwarding::ForwardingMetadata;
+// C38 (family "policy"): stand-alone MemBalancerTrigger / FixedHeapSizeTrigger drivers.
+pub use crate::util::heap::gc_trigger::verif_hooks as gc_trigger_hooks;
